@@ -14,7 +14,7 @@ ENV = JSONPathEnvironment()
 QTEXT = P.get("qtext", "$..*")
 COMPILED = ENV.compile(QTEXT)
 DOCKIND = P.get("doc", 0)
-NAMES = ["1", "+1", "-1", "01", "~", "/", "", "é", "a/b", "~1", "#a", "0", " ", "-", "😀", "1e2"]
+NAMES = ["1", "+1", "-1", "01", "~", "/", "", "é", "a/b", "~1", "#a", "0", " ", "-", "😀", "-0"]
 ALO, AHI, NEXT_ONLY = P.get("alo", 0), P.get("ahi", 15), P.get("next_only", False)
 VT = {"leaf": Leaf, "int": int}[P.get("vleaf", "int")]
 
@@ -26,7 +26,7 @@ def mkdoc(l0: int, l1: int, l2: int, l3: int, n: int, k1: str, k2: str) -> Any:
     if n >= 2:
         arr.append(l3)
     if DOCKIND == 0:
-        return {"1": l0, "+1": l1, "-1": arr, "01": {"~": l2, "/": l3, "": l0, "é": l1}}
+        return {"1": l0, "+1": l1, "-1": arr, "01": {"~": l2, "/": l3, "": l0, "é": l1, "-0": l2, "0": l3}}
     if DOCKIND == 1:
         return {k1: l0, k2: {k1: l1, "x": arr}, "x": [{k2: l2}]}
     return [arr, {"0": l0, "1": [l1]}, l3]
